@@ -374,6 +374,11 @@ structure PktInv (d : List Nat) (p : AlcPkt) : Prop where
   pay_le : p.payloadOffset ≤ d.length
   alc_eq : p.alcHeaderOffset = p.lct.len
   pay_eq : p.payloadOffset = payloadIdLen p.lct.cp + p.lct.len
+  /-- provenance of the fields -/
+  lct_eq : parseLctHeader d = .ok p.lct
+  fti_eq : ∃ fti, getFti p.lct.cp d p.lct = .ok fti ∧ p.oti = fti.map (fun x => x.1) ∧ p.transferLength = fti.map (fun x => x.2)
+  cenc_eq : ∃ ce, getExt d p.lct EXT_CENC = .ok ce ∧ cencOf ce = .ok p.cenc
+  fdt_eq : fdtInfoOf d p.lct = .ok p.fdtInfo
 
 theorem parseAlcPkt_cases (d : List Nat) :
     parseAlcPkt d = .err ∨ ∃ p, parseAlcPkt d = .ok p ∧ PktInv d p := by
@@ -421,6 +426,10 @@ theorem parseAlcPkt_cases (d : List Nat) :
                 · dsimp only; omega
                 · rfl
                 · rfl
+                · exact h
+                · exact ⟨fti, hf, rfl, rfl⟩
+                · exact ⟨cencExt, hc, hcc⟩
+                · exact hfd
 
 theorem getSenderCurrentTime_total (d : List Nat) (hw : Wf d) (p : AlcPkt) (h : PktInv d p) :
     (getSenderCurrentTime d p).isPanic = false := by
